@@ -24,6 +24,7 @@
 #include <gsl/gsl_errno.h>
 
 #include <bxdecay0/decay0_generator.h>
+#include <bxdecay0/dbd_gA.h>
 #include <bxdecay0/gauss.h>
 #include "../engine/vf.hpp"
 #include "refdict.inc"
@@ -329,6 +330,30 @@ int main(int argc, char ** argv)
           if (!same_ev) { report("events-differ:gA-modes", "the four gA configurations initialised and shot on " + std::to_string(T) + " threads at the same time: an instance does not behave as it does alone (" + (con[0].compare(0, 4, "EXC:") == 0 ? con[0] : std::string("events differ")) + ")", body); continue; }
           rep.nt(body); rep.label("gA-together");
         }
+      }
+      // tabulated-spectra samplers used directly (the public dbd_gA class, REJECTION method, which decay0_generator does not select): two or three
+      // of them shooting at the same time, next to a generator whose initialisation runs quadratures that miss their tolerance.  Anything process-wide
+      // they touch while sampling (the GSL error handler, an interpolation accelerator shared between objects) shows as a handler that is not the
+      // application's after the join, as an invocation of the aborting default, or as energies that differ from a solo run.
+      if (mode == "free" && getenv("BXDECAY0_DBD_GA_DATA_DIR")) for (int rk = shard; rk < 12; rk += nsh) {
+        static const char * NUC[] = {"Se82", "Mo100", "Cd116", "Nd150"}; int T = 2 + rk % 2; int nshots = 60 + 40 * (rk % 3); bool with_gen = rk % 2 == 0;
+        auto rejwork = [&](int t) { std::string d; try { bxdecay0::dbd_gA ga; ga.set_nuclide(NUC[(rk + t) % 4]); ga.set_process(bxdecay0::dbd_gA::PROCESS_G0); ga.set_shooting(bxdecay0::dbd_gA::SHOOTING_REJECTION); ga.initialize();
+            Tape tp; tp.seed = mix(9000 + rk, t); TapeRandom r(tp, 0, 100000000); for (int k = 0; k < nshots; k++) { double e1, e2; ga.shoot_e1_e2(r, e1, e2); d.append((const char *)&e1, sizeof e1); d.append((const char *)&e2, sizeof e2); } } catch (std::exception & e) { d = std::string("EXC:") + e.what(); } return d; };
+        gsl_set_error_handler(&h0); g_h0_calls = 0; bxdecay0::verif::gauss_schedule_point = nullptr;
+        std::vector<std::string> con(T + 1), seq(T + 1); std::vector<std::thread> th; std::atomic<int> ready{0}; int NT = T + (with_gen ? 1 : 0);
+        for (int t = 0; t < T; t++) th.emplace_back([&, t] { ready++; while (ready.load() < NT) std::this_thread::yield(); con[t] = rejwork(t); });
+        if (with_gen) th.emplace_back([&] { ready++; while (ready.load() < NT) std::this_thread::yield(); try { con[T] = gwork(rk % NGC, 4000 + rk, 2); } catch (std::exception & e) { con[T] = std::string("EXC:") + e.what(); } });
+        for (auto & x : th) x.join();
+        long fired = g_h0_calls.load(); gsl_error_handler_t * after = gsl_set_error_handler(&h0);
+        for (int t = 0; t < T; t++) seq[t] = rejwork(t);
+        if (with_gen) { try { seq[T] = gwork(rk % NGC, 4000 + rk, 2); } catch (std::exception & e) { seq[T] = std::string("EXC:") + e.what(); } }
+        rep.evaluations++;
+        std::string body = "\"rejection_samplers\":" + std::to_string(T) + ",\"with_generator\":" + (with_gen ? "true" : "false") + ",\"round\":" + std::to_string(rk);
+        if (fired) { report("default-handler-invoked", "gA rejection samplers on " + std::to_string(T) + " threads" + (with_gen ? " next to a generator" : "") + ": a library call ran with the process-wide default GSL error handler installed and it was invoked (the real default aborts)", body); continue; }
+        if (after != &h0) { report("handler-not-restored", "after gA rejection samplers ran on " + std::to_string(T) + " threads the GSL error handler is not the one the application installed", body); continue; }
+        bool same_r = true; for (int t = 0; t < NT; t++) if (seq[t] != con[t]) same_r = false;
+        if (!same_r) { report("events-differ:gA-rejection", "a gA rejection sampler (or the generator next to it) produced other values than when run alone", body); continue; }
+        rep.nt(body); rep.label("gA-rejection-samplers");
       }
       for (long k = shard; k < ncase; k += nsh) {
         Rng r(mix(mix(seed, 0xC1202), k)); int T = r.range(2, 4), shots = r.range(1, 4);
